@@ -1,0 +1,35 @@
+//go:build verif
+
+// Contracts for package env, checked by /verif/govc (see /verif/DESIGN.md).  Comment-only file.
+
+package env
+
+// mangler constructors: contracts in packages transform and tagformat
+
+// the environment variable consulted for translated field k
+//@ macro envName(e *Source, vt RType, k int) Str = ite(e.Prefix == "", tagGet(fTag(vt, k), "dialsenv"),
+//@      scat(scat(e.Prefix, "_"), tagGet(fTag(vt, k), "dialsenv")))
+
+//@ func env.(*Source).Value(e, ctx, t) (v, err)
+//@   props C11
+//@   safety C16
+//@   requires e != nil && t != nil && as(t, "*dials.Type").t != nil
+//@   modifies rh, rec_translate, rec_reverseTranslate, transform.Transformer.mState
+//@   at call transform.NewTransformer:
+//@     assert C14_alias_mangler_is_first: len(arg1) >= 1 && isType(cell(selem(arg1, 0), "Iface"), "*transform.AliasMangler")
+//@     assert C11_string_cast_is_last: lastManglerIsStringCast(arg1)
+//@     assert C11_transformer_for_the_requested_type: arg0 == as(t, "*dials.Type").t
+//@   at call fmt.Errorf("empty:
+//@     assume rely_mangler_chain_populates_the_dialsenv_tag: false
+//@   loop 0:
+//@     invariant 0 <= i && i <= numField(valType) && valType == vtype(val)
+//@     invariant C11_set_iff_variable_present: forall k int :: 0 <= k && k < i ==>
+//@          (visnil(vField(val, k)) <==> !envPresent(envName(e, valType, k)))
+//@     invariant C11_exact_text_handed_to_the_parser: forall k int :: 0 <= k && k < i && envPresent(envName(e, valType, k)) ==>
+//@          cell(vptr(vField(val, k)), "string") == envValue(envName(e, valType, k)) && fresh(vptr(vField(val, k))) && allocated(vptr(vField(val, k)))
+//@     invariant C11_nothing_else_is_touched: forall k int :: i <= k && k < numField(valType) ==> visnil(vField(val, k))
+//@   ensures C11_translate_error_propagates: rec_translate_res1[old(rec_translate_cnt)] != nil ==> err != nil
+//@   ensures C11_result_is_the_reverse_translation_of_the_filled_value: rec_translate_res1[old(rec_translate_cnt)] == nil ==>
+//@        rec_reverseTranslate_cnt == old(rec_reverseTranslate_cnt) + 1
+//@        && rec_reverseTranslate_arg1[old(rec_reverseTranslate_cnt)] == rec_translate_res0[old(rec_translate_cnt)]
+//@        && v == rec_reverseTranslate_res0[old(rec_reverseTranslate_cnt)] && err == rec_reverseTranslate_res1[old(rec_reverseTranslate_cnt)]
